@@ -11,6 +11,7 @@ PKG, HARNESS = HARNESSES[0][0], HARNESSES[0][1]
 
 INTERNAL_BINDS = {"internal", "status", "metrics", "health"}
 VALID_CREDS = {"valid0": "alice@verif", "valid1": "bob@verif", "valid-lowercase-scheme": "alice@verif"}
+VALID_CREDS_E = {"valid-aud-hostname": "alice@verif"}   # engine E has no audience configured: only the host name is accepted
 
 # token classes the property's text obliges the middleware to refuse (class names of the harness generator)
 TOKEN_MUST_REJECT = {
@@ -21,6 +22,10 @@ TOKEN_MUST_REJECT = {
     "no-credential": "no bearer credential", "garbage": "not a token", "truncated": "no signature",
     "alg-none": "not signed", "alg-hmac": "not signed by an authorised key (MAC with public material)",
     "alg-mismatch": "signature does not fit the declared algorithm", "forged": "signed by an unauthorised key",
+    "key-weak-rsa": "signed by an RSA key below 2048 bits (not an authorised key)", "key-no-comment": "signed by a key without user name (not authorised)",
+    "key-commented-out": "signed by a key that is commented out in authorized_keys",
+    "key-weak-rsa+iss-alice": "signed by a weak key", "key-no-comment+iss-alice": "signed by a key without user name",
+    "key-commented-out+iss-alice": "signed by a commented-out key",
     "tampered": "protected bytes altered", "zero-sig": "no signature", "other-party": "issuer is not the key owner's name",
 }
 
@@ -55,7 +60,9 @@ def run(ctx):
                 "same_address_shared", "configured_binds", "requestURI_selector_admits_bypass", "requestURI_selector_admits_query_bypass",
                 "without_exp_check_zero_exp_never_expires", "atLeastOne_rule_admits_two_signatures",
                 "fact_auth_selector_is_url_path", "fact_auth_skipper_negated", "fact_auth_path", "fact_auth_installed_with_use",
-                "fact_internal_binds", "fact_policy", "fact_best_practices_conditions", "fact_acceptable_algs_asymmetric"]
+                "fact_internal_binds", "fact_policy", "fact_best_practices_conditions", "fact_acceptable_algs_asymmetric",
+                "fact_registered_first_segments", "fact_default_addresses_differ", "fact_auth_types", "configure_auth_sound",
+                "fact_authorized_keys", "authorized_keys_sound"]
     for r in required:
         if not any(t.endswith("Props." + r) for t in thms):
             ctx.oblige("thm-present:" + r, False, "theorem missing or its module does not build")
@@ -160,10 +167,19 @@ def http_part(ctx, out):
     distinct = set()
     seen_sig = set()
     n_req = o_bypass = o_401 = o_public = 0
+    o_cfg = 0
     for i, line in enumerate(impl):
         if i >= len(ops) or not ops[i]:
             continue
         op = json.loads(ops[i])
+        if op.get("op") == "configure":
+            # O4: an auth type the engine does not know, or an unusable authorized_keys file, must make Configure fail
+            typ, kf = op.get("a", ""), op.get("b", "")
+            if line == "ok" and (typ not in ("", "token_v2") or (typ == "token_v2" and kf in ("missing", "garbage"))):
+                o_cfg += 1
+                ctx.violation("C04:configure:silently-unauthenticated", f"Configure accepted auth type {typ!r} with authorized_keys '{kf}' without error: "
+                              "the internal API would run without (working) authentication", "configure-silently-unauthenticated.jsonl", ops[i])
+            continue
         if op.get("op") != "req":
             continue
         n_req += 1
@@ -192,7 +208,7 @@ def http_part(ctx, out):
 
         # O1 no_bypass: an /internal canary ran although the request carried no acceptable token (or saw another user)
         if eng.get("auth") and ran_id in internal_ids:
-            owner = VALID_CREDS.get(op["cred"])
+            owner = (VALID_CREDS_E if op["eng"] == "E" else VALID_CREDS).get(op["cred"])
             if owner is None:
                 o_bypass += 1
                 report("bypass", "handler registered under /internal ran without an acceptable bearer token")
@@ -209,9 +225,10 @@ def http_part(ctx, out):
             report("internal-on-public", "public listener served a handler bound to the internal interface")
     ctx.oblige("oracle:no-internal-handler-without-token(impl, raw TCP)", o_bypass == 0, f"{o_bypass} requests")
     ctx.oblige("oracle:401-has-no-effect(impl)", o_401 == 0, f"{o_401} requests")
+    ctx.oblige("oracle:unknown-auth-type-or-bad-keys-file-is-an-error(impl)", o_cfg == 0, f"{o_cfg} configurations")
     ctx.oblige("oracle:internal-routes-never-on-public-listener(impl)", o_public == 0, f"{o_public} requests")
 
-    correspondence(ctx, "http", impl, model, bad, ops, o_bypass + o_401 + o_public)
+    correspondence(ctx, "http", impl, model, bad, ops, o_bypass + o_401 + o_public + o_cfg)
     d = {"requests": n_req, "target_forms": dict(forms), "status": {str(k): v for k, v in sorted(statuses.items())},
          "credential_kinds": dict(creds), "methods": dict(methods), "other_differential_lines": len(impl) - n_req}
     ctx.cov["samples"] = [ops[1][:300] if len(ops) > 1 else "", impl[1][:100] if len(impl) > 1 else ""]
@@ -232,6 +249,8 @@ def token_part(ctx, out):
         if i >= len(ops) or not ops[i]:
             continue
         op = json.loads(ops[i])
+        if op.get("op") == "akeys":
+            continue
         cls = op["class"]
         res = line.split(" ")[0]
         classes[cls] += 1
